@@ -158,11 +158,7 @@ Section Sound.
     match prod_entries l with Some p => denC r0 p = PV l | None => l = [] end.
   Proof.
     intros l. unfold prod_entries. destruct l as [|q r]; [reflexivity|].
-    assert (Hf : forall rr init, denC r0 (fold_left (fun acc q => CMul acc (CPow (CE (fst q)) (CE (snd q)))) rr init)
-                                = denC r0 init * PV rr).
-    { unfold PV. induction rr as [|q' r' IH]; intros init; cbn [fold_left fold_right]; [ring|].
-      rewrite IH. cbn [denC]. unfold G. rewrite !U_t0. ring. }
-    rewrite Hf. unfold PV. cbn [denC fold_right]. unfold G. rewrite !U_t0. reflexivity.
+    cbn [denC den num_val]. unfold PV, G. rewrite Rmult_1_l. reflexivity.
   Qed.
 
   Lemma mul_term_den : forall c f rest,
